@@ -782,6 +782,10 @@ pub fn run(ctx: &mut Ctx) {
     for_each_string(&TAG_ALPHA, tag_len, |s| {
         case(ctx, &env, Group::StripHtml, s, "family:exhaustive-tag-alphabet");
     });
+    // tags with (balanced and unbalanced) quotes, attribute syntax and line breaks inside
+    for_each_string(&['<', '>', '"', '\'', 'a', '=', ' ', '\n'], tag_len + 1, |s| {
+        case(ctx, &env, Group::StripHtml, s, "family:exhaustive-quoted-tag-alphabet");
+    });
     let n = ctx.scale(50_000u64, 1_000_000u64);
     let rng = ctx.rng("c16-random");
     for i in 0..n {
